@@ -20,12 +20,12 @@ O="$B/obj"; mkdir -p "$O"
 # the runtime is never instrumented
 $CC -O2 -g -c -DSIM_FLAVOUR=$N -I"$S" "$S/simrt.c" -o "$O/simrt.o"
 pids=()
-for f in world ops exec gen model json; do
+for f in world ops exec gen model json q120ref; do
   if [ ! -f "$O/$f.o" ] || [ "$S/$f.cpp" -nt "$O/$f.o" ] || [ "$S/world.h" -nt "$O/$f.o" ] || [ "$S/simrt.h" -nt "$O/$f.o" ]; then
     $CXX -std=c++17 -O1 -g $SAN -fno-omit-frame-pointer -DSIM_FLAVOUR=$N -DSPQLIOS_VERIF -I"$S" -I"$REPO" -c "$S/$f.cpp" -o "$O/$f.o" &
     pids+=($!)
   fi
 done
 for p in "${pids[@]}"; do wait $p; done
-$CXX $SAN -g -o "$OUT" "$O"/world.o "$O"/ops.o "$O"/exec.o "$O"/gen.o "$O"/model.o "$O"/json.o "$O/simrt.o" \
+$CXX $SAN -g -o "$OUT" "$O"/world.o "$O"/ops.o "$O"/exec.o "$O"/gen.o "$O"/model.o "$O"/json.o "$O"/q120ref.o "$O/simrt.o" \
   "$B/spqlios/libspqlios.a" $WRAP -lm -lpthread
